@@ -451,7 +451,8 @@ def runInternal (fuel : Nat) (s : State) : State × Int :=
 def eventsRun (fuel : Nat) (s : State) : State :=
   let s0 := emit { s with cbcount := 0 } .runBegin
   let (s1, rc) := runInternal fuel s0
-  emit { s1 with intr := false } (.ret rc)
+  -- (out of fuel: the model gave up, nothing more is recorded)
+  if s1.fault then s1 else emit { s1 with intr := false } (.ret rc)
 
 /-- top-level ops of a program -/
 inductive Top
